@@ -308,7 +308,7 @@ def selCanon (orderInsensitive caseInsensitive timeInsensitive : List String) (f
     the fields its Connection names and Content-Length replaces the stored field; a stored Age is
     dropped (the age restarts from the 304) -/
 def merge304 (canon : Str → Str) (stored new : Header) : Header :=
-  let named := ((splitList (Header.get new sConnection) false []).map trimOWS).filter (!·.isEmpty) |>.map canon
+  let named := (listMembers new sConnection).map canon   -- every Connection field line (RFC 9110 §5.3)
   let skip := sContentLength :: (hopByHopFixed ++ named)
   let base := Header.del stored sAge
   (Header.names new).foldl (fun acc n =>
